@@ -187,7 +187,7 @@ func (sp *ServerPool) buildResponse(spCtx *serverPoolContext) (err error)
   flag allocates
   requires sp != nil && sp.spec != nil && sp.proxy != nil && sp.proxy.spec != nil && spCtx != nil && spCtx.Context != nil
   requires spCtx.stdResp != nil && spCtx.stdResp.Body != nil && ifaceVal(spCtx.stdResp.Body) != 0 && rdRem[ifaceVal(spCtx.stdResp.Body)] >= 0
-  modifies spCtx.resp, spCtx.stdResp.Body, spCtx.stdResp.ContentLength, outResp, gLimit, rdRem, limUnder, limN, allof("protocols/httpprot.Response.stream"), allof("protocols/httpprot.Response.payload"), allof("map<string,[]string>#dom"), allof("map<string,[]string>#card"), allof("map<string,[]string>#val#arr"), allof("map<string,[]string>#val#len"), allof("map<string,[]string>#val#cap"), allof("elem<string>")
+  modifies spCtx.resp, spCtx.stdResp.Body, spCtx.stdResp.ContentLength, outResp, outRespTyp, gLimit, rdRem, limUnder, limN, allof("protocols/httpprot.Response.stream"), allof("protocols/httpprot.Response.payload"), allof("map<string,[]string>#dom"), allof("map<string,[]string>#card"), allof("map<string,[]string>#val#arr"), allof("map<string,[]string>#val#len"), allof("map<string,[]string>#val#cap"), allof("elem<string>")
   ensures built: err == nil ==> spCtx.resp != nil && fresh(spCtx.resp) && spCtx.resp.Response == spCtx.stdResp && outResp == ref(spCtx.resp)
   ensures failed-build-leaves-the-response-slot: err != nil ==> spCtx.resp == old(spCtx.resp) && outResp == old(outResp)
   ensures pool-limit-else-proxy-limit: gLimit == (sp.spec.ServerMaxBodySize != 0 ? sp.spec.ServerMaxBodySize : sp.proxy.spec.ServerMaxBodySize)
@@ -196,7 +196,7 @@ func (sp *ServerPool) buildResponse(spCtx *serverPoolContext) (err error)
 func (sp *ServerPool) buildFailureResponse(spCtx *serverPoolContext, statusCode int)
   flag allocates
   requires spCtx != nil && spCtx.Context != nil
-  modifies spCtx.resp, outResp
+  modifies spCtx.resp, outResp, outRespTyp
   ensures spCtx.resp != nil && fresh(spCtx.resp) && spCtx.resp.Response != nil && spCtx.resp.Response.StatusCode == statusCode && outResp == ref(spCtx.resp)
 
 pred isLB(v interface{}) := v != nil && (typeIs(v, "*roundRobinLoadBalancer") || typeIs(v, "*randomLoadBalancer") || typeIs(v, "*WeightedRandomLoadBalancer") || typeIs(v, "*ipHashLoadBalancer") || typeIs(v, "*headerHashLoadBalancer"))
@@ -207,7 +207,7 @@ func (sp *ServerPool) doHandle(attemptCtx stdcontext.Context, spCtx *serverPoolC
   requires sp != nil && sp.spec != nil && sp.proxy != nil && sp.proxy.spec != nil && spCtx != nil && spCtx.Context != nil && spCtx.req != nil && spCtx.req.Request != nil && spCtx.req.Request.URL != nil && spCtx.req.Request.Header != nil
   requires balancer-published: isLB(sp.loadBalancer.v)
   assume stdlib-context.DeadlineExceeded-is-a-non-nil-error: stdcontext.DeadlineExceeded != nil
-  modifies spCtx.stdReq, spCtx.stdResp, spCtx.resp, outResp, gFwdMethod, gFwdURL, gFwdBody, gFwdCtx, gClonedFrom, gCloned, gNewReqHost, gLimit, gNoServer, gPrepFailed, gSendFailed, gCtxErr, gBuildFailed, gBackendStatus, rdRem, limUnder, limN, allof("net/http.Response.Body"), allof("net/http.Response.ContentLength"), allof("protocols/httpprot.Response.stream"), allof("protocols/httpprot.Response.payload"), allof("filters/proxy.roundRobinLoadBalancer.counter"), allof("ghostf:filters/proxy.roundRobinLoadBalancer.cnt"), allof("map<string,[]string>#dom"), allof("map<string,[]string>#card"), allof("map<string,[]string>#val#arr"), allof("map<string,[]string>#val#len"), allof("map<string,[]string>#val#cap"), allof("elem<string>")
+  modifies spCtx.stdReq, spCtx.stdResp, spCtx.resp, outResp, outRespTyp, gFwdMethod, gFwdURL, gFwdBody, gFwdCtx, gClonedFrom, gCloned, gNewReqHost, gLimit, gNoServer, gPrepFailed, gSendFailed, gCtxErr, gBuildFailed, gBackendStatus, rdRem, limUnder, limN, allof("net/http.Response.Body"), allof("net/http.Response.ContentLength"), allof("protocols/httpprot.Response.stream"), allof("protocols/httpprot.Response.payload"), allof("filters/proxy.roundRobinLoadBalancer.counter"), allof("ghostf:filters/proxy.roundRobinLoadBalancer.cnt"), allof("map<string,[]string>#dom"), allof("map<string,[]string>#card"), allof("map<string,[]string>#val#arr"), allof("map<string,[]string>#val#len"), allof("map<string,[]string>#val#cap"), allof("elem<string>")
   ensures classified: err == nil || typeIs(err, "serverPoolError")
   ensures no-server-is-503-internalError: gNoServer ==> isSPE(err, 503, "internalError")
   ensures unbuildable-request-is-500-internalError: !gNoServer && gPrepFailed ==> isSPE(err, 500, "internalError")
@@ -250,7 +250,7 @@ func (sp *ServerPool) handleMirror(spCtx *serverPoolContext)
 func (sp *ServerPool) buildResponseFromCache(spCtx *serverPoolContext) (hit bool)
   trusted
   flag allocates
-  modifies spCtx.resp, outResp
+  modifies spCtx.resp, outResp, outRespTyp
   ensures hit ==> spCtx.resp != nil && fresh(spCtx.resp) && spCtx.resp.Response != nil && outResp == ref(spCtx.resp)
   ensures !hit ==> spCtx.resp == old(spCtx.resp) && outResp == old(outResp)
 
@@ -315,7 +315,7 @@ func (sp *ServerPool) handle#handler(c stdcontext.Context) (err error)
   trusted
   flag locals
   flag allocates
-  modifies spCtx.stdReq, spCtx.stdResp, spCtx.resp, spCtx.span, outResp, gFwdMethod, gFwdURL, gFwdBody, gFwdCtx, gClonedFrom, gCloned, gNewReqHost, gAttempts, gLastErr, gAttemptResp, gInCtx, gDoCtx, gLimit, gNoServer, gPrepFailed, gSendFailed, gCtxErr, gBuildFailed, gBackendStatus, rdRem, limUnder, limN, allof("net/http.Response.Body"), allof("net/http.Response.ContentLength"), allof("protocols/httpprot.Response.stream"), allof("protocols/httpprot.Response.payload"), allof("filters/proxy.roundRobinLoadBalancer.counter"), allof("ghostf:filters/proxy.roundRobinLoadBalancer.cnt"), allof("map<string,[]string>#dom"), allof("map<string,[]string>#card"), allof("map<string,[]string>#val#arr"), allof("map<string,[]string>#val#len"), allof("map<string,[]string>#val#cap"), allof("elem<string>")
+  modifies spCtx.stdReq, spCtx.stdResp, spCtx.resp, spCtx.span, outResp, outRespTyp, gFwdMethod, gFwdURL, gFwdBody, gFwdCtx, gClonedFrom, gCloned, gNewReqHost, gAttempts, gLastErr, gAttemptResp, gInCtx, gDoCtx, gLimit, gNoServer, gPrepFailed, gSendFailed, gCtxErr, gBuildFailed, gBackendStatus, rdRem, limUnder, limN, allof("net/http.Response.Body"), allof("net/http.Response.ContentLength"), allof("protocols/httpprot.Response.stream"), allof("protocols/httpprot.Response.payload"), allof("filters/proxy.roundRobinLoadBalancer.counter"), allof("ghostf:filters/proxy.roundRobinLoadBalancer.cnt"), allof("map<string,[]string>#dom"), allof("map<string,[]string>#card"), allof("map<string,[]string>#val#arr"), allof("map<string,[]string>#val#len"), allof("map<string,[]string>#val#cap"), allof("elem<string>")
   ensures short-circuit-makes-no-attempt: err == resilience.ErrShortCircuited ==> gAttempts == old(gAttempts) && spCtx.resp == old(spCtx.resp) && outResp == old(outResp)
   ensures otherwise-the-outcome-of-the-last-attempt: err != resilience.ErrShortCircuited ==> gAttempts > old(gAttempts) && err == gLastErr && gAttemptResp == ref(spCtx.resp) && (spCtx.resp == nil || fresh(spCtx.resp)) && (noAnswer() ==> spCtx.resp == nil) && (spCtx.resp != nil ==> outResp == ref(spCtx.resp)) && (err == nil ==> spCtx.resp != nil) && (err == nil || typeIs(err, "serverPoolError")) && (err != nil && !noAnswer() ==> spCtx.resp != nil) && (spCtx.resp != nil ==> spCtx.resp.Response != nil)
 
